@@ -594,6 +594,17 @@ def rule_semantics_of_helpers(repo, rep):
         ok = sorted(str(exact_pair(x)) for x in conjuncts(ret.value)) == ["scale_f32", "zero_point"]
         rep.check(ok, "C16-e", f"ethosu/vela/tensor.py:{fnm}", "scaling equality is exact equality of scale and zero point ('quantization parameters must match')",
                   f"returns `{norm(ret.value)}`: operators whose parameters differ slightly are accepted by the 'must match' constraints although the documented rule rejects them")
+    # (2b) MAXIMUM(x, MUL(x, c)) -> LeakyReLU / Abs absorbs the MUL: only if the MUL itself was placed on the NPU
+    go_ = repo.mod("tflite_graph_optimiser")
+    mm_ = go_.func("convert_mul_max_to_abs_or_lrelu")
+    c_m = cfg_of(mm_)
+    gates = c_m.nodes_where(lambda nd: nd.kind == "test" and "mul.run_on_npu" in str(norm(nd.expr)))
+    muts_ = c_m.nodes_where(lambda nd: nd.kind == "stmt" and isinstance(nd.stmt, ast.Assign) and str(norm(nd.stmt.targets[0])) in ("op.type", "op.inputs"))
+    if not muts_:
+        raise AnalysisError("convert_mul_max_to_abs_or_lrelu: rewrite statements not found")
+    rep.check(bool(gates) and all(any(c_m.dominates(g_, x_) for g_ in gates) for x_ in muts_), "C16-e", "ethosu/vela/tflite_graph_optimiser.py:convert_mul_max_to_abs_or_lrelu",
+              "the MUL that is absorbed into the LeakyReLU / Abs runs on the NPU itself (test of mul.run_on_npu before the rewrite)",
+              "mul.run_on_npu is never consulted: a MUL that violates a listed constraint (e.g. int16 scalar with an int8 input: 'Both Input data types must match') is warned about, then fused into the NPU operator and disappears from the output")
     # (3) activation fusing
     go = repo.mod("tflite_graph_optimiser")
     fa = go.func("fuse_activation_function_with_prev")
